@@ -27,7 +27,8 @@ class TPrim(Ty):
     def __init__(self, kind): self.kind = kind; self.key = kind
 TInt, TBool, TStr, TFloat, TNone = (TPrim(k) for k in ('int', 'bool', 'str', 'float', 'none'))
 TBytes = TPrim('bytes')
-TFlags = TPrim('flags')   # enum.IntFlag values: 64-bit vectors   # byte strings as z3 strings of code points 0..255 (latin-1 view)
+TFlags = TPrim('flags')
+TMatch = TPrim('match')   # result of re.match & co: payload (matched: z3 Bool, python-level group holder); None iff not matched   # enum.IntFlag values: 64-bit vectors   # byte strings as z3 strings of code points 0..255 (latin-1 view)
 TExc = TPrim('exc')   # python-level exception value (never packed)
 
 class TEnum(Ty):
@@ -420,6 +421,7 @@ def veq(a, b):
     if ta is TNone and tb is TNone: return z3.BoolVal(True)
     if ta is TNone: a, b, ta, tb = b, a, tb, ta
     if tb is TNone:
+        if ta is TMatch: return z3.Not(a.t[0])
         if isinstance(ta, TOpt): return a.t[0]
         return z3.BoolVal(False)
     if isinstance(ta, TOpt) or isinstance(tb, TOpt):
@@ -478,6 +480,7 @@ def truth(v):
     if ty is TFloat: return v.t != 0
     if ty is TStr or ty is TBytes: return z3.Length(v.t) > 0
     if ty is TFlags: return v.t != 0
+    if ty is TMatch: return v.t[0]
     if ty is TNone: return z3.BoolVal(False)
     if isinstance(ty, TOpt): return z3.And(z3.Not(v.t[0]), truth(v.t[1]))
     if isinstance(ty, TSeq): return v.t[0] > 0
